@@ -1,10 +1,1001 @@
-//! vectored programs (filled in below)
+//! Vectored programs of the C10 harness: the real `IoVectoredBuf` / `IoVectoredBufMut` / `SetLen` impls of
+//! containers of buffers (Vec, arrays, ArrayVec, SmallVec, tuple chains), `VectoredSlice` (`slice`,
+//! `slice_mut`, nested twice), `VectoredBufIter` (`owned_iter`) and `advance_vec_to`.
+//! Members are `Box<dyn DynView>` (real roots, optionally under one real `Slice` / `Uninit` layer).
+
+use std::ops::Bound;
+
+use compio_buf::{
+    IntoInner, IoBuf, IoBufExt, IoBufMut, IoBufMutExt, IoVectoredBuf, IoVectoredBufMut, SetLen, SetLenExt,
+    VectoredBufIter, VectoredSlice, arrayvec::ArrayVec, smallvec::SmallVec,
+};
 use hx_common::*;
 
-pub fn generate(_tier: &str, _rng: &mut Rng, _cases: &mut Vec<Case>) {}
+use super::{BV, DynView, RootInfo, mk_root};
+
+// ---------------------------------------------------------------------------------------------
+// type-erased vectored buffers
+// ---------------------------------------------------------------------------------------------
+
+type Items = Result<Vec<(usize, usize)>, ()>;
+
+pub trait VecOps {
+    fn items_s(&self) -> Items;
+    fn items_u(&mut self) -> Items;
+    fn total_len(&self) -> Result<usize, ()>;
+    fn total_cap(&mut self) -> Result<usize, ()>;
+    fn set_len(&mut self, n: usize) -> Result<(), ()>;
+    fn advance_vec_to(&mut self, n: usize) -> Result<(), ()>;
+    fn write(&mut self, data: &[u8]) -> Result<(), ()>;
+    /// `None` = not supported at this nesting depth (the box is returned)
+    fn slice(self: Box<Self>, b: usize, by_cap: bool) -> Result<Result<Box<dyn VecOps>, ()>, Box<dyn VecOps>>;
+    fn peel(self: Box<Self>) -> Box<dyn VecOps>;
+    fn owned_iter(self: Box<Self>) -> Result<Result<Box<dyn IterOps>, Box<dyn VecOps>>, ()>;
+    fn depth(&self) -> usize;
+}
+
+pub trait IterOps {
+    fn init(&self) -> Result<(usize, usize), ()>;
+    fn uninit(&mut self) -> Result<(usize, usize), ()>;
+    fn set_len(&mut self, n: usize) -> Result<(), ()>;
+    fn advance_to(&mut self, n: usize) -> Result<(), ()>;
+    fn write(&mut self, data: &[u8]);
+    fn next(self: Box<Self>) -> Result<Box<dyn IterOps>, Box<dyn VecOps>>;
+    fn inner(self: Box<Self>) -> Box<dyn VecOps>;
+}
+
+struct L<V, const D: usize>(V);
+struct I<V, const D: usize>(VectoredBufIter<V>);
+
+fn g_items_s<V: IoVectoredBuf>(v: &V) -> Items {
+    catch(|| v.iter_slice().map(|s| (s.as_ptr() as usize, s.len())).collect()).map_err(|_| ())
+}
+
+fn g_items_u<V: IoVectoredBufMut>(v: &mut V) -> Items {
+    catch(|| v.iter_uninit_slice().map(|s| (s.as_ptr() as usize, s.len())).collect()).map_err(|_| ())
+}
+
+fn g_write<V: IoVectoredBufMut>(v: &mut V, data: &[u8]) -> Result<(), ()> {
+    catch(|| {
+        let mut rest = data;
+        let mut it = v.iter_uninit_slice();
+        while !rest.is_empty() {
+            let Some(s) = it.next() else { break };
+            let n = s.len().min(rest.len());
+            for i in 0..n {
+                s[i].write(rest[i]);
+            }
+            rest = &rest[n..];
+        }
+    })
+    .map_err(|_| ())
+}
+
+macro_rules! vec_ops_common {
+    () => {
+        fn items_s(&self) -> Items {
+            g_items_s(&self.0)
+        }
+
+        fn items_u(&mut self) -> Items {
+            g_items_u(&mut self.0)
+        }
+
+        fn total_len(&self) -> Result<usize, ()> {
+            catch(|| self.0.total_len()).map_err(|_| ())
+        }
+
+        fn total_cap(&mut self) -> Result<usize, ()> {
+            catch(|| self.0.total_capacity()).map_err(|_| ())
+        }
+
+        fn set_len(&mut self, n: usize) -> Result<(), ()> {
+            catch(|| unsafe { SetLen::set_len(&mut self.0, n) }).map_err(|_| ())
+        }
+
+        fn advance_vec_to(&mut self, n: usize) -> Result<(), ()> {
+            catch(|| unsafe { self.0.advance_vec_to(n) }).map_err(|_| ())
+        }
+
+        fn write(&mut self, data: &[u8]) -> Result<(), ()> {
+            g_write(&mut self.0, data)
+        }
+    };
+}
+
+macro_rules! iter_ops_common {
+    () => {
+        fn init(&self) -> Result<(usize, usize), ()> {
+            catch(|| {
+                let s = self.0.as_init();
+                (s.as_ptr() as usize, s.len())
+            })
+            .map_err(|_| ())
+        }
+
+        fn uninit(&mut self) -> Result<(usize, usize), ()> {
+            catch(|| {
+                let s = self.0.as_uninit();
+                (s.as_ptr() as usize, s.len())
+            })
+            .map_err(|_| ())
+        }
+
+        fn set_len(&mut self, n: usize) -> Result<(), ()> {
+            catch(|| unsafe { SetLen::set_len(&mut self.0, n) }).map_err(|_| ())
+        }
+
+        fn advance_to(&mut self, n: usize) -> Result<(), ()> {
+            catch(|| unsafe { self.0.advance_to(n) }).map_err(|_| ())
+        }
+
+        fn write(&mut self, data: &[u8]) {
+            let s = self.0.as_uninit();
+            for (i, b) in data.iter().enumerate() {
+                s[i].write(*b);
+            }
+        }
+    };
+}
+
+macro_rules! owned_iter_impl {
+    ($d:literal) => {
+        fn owned_iter(self: Box<Self>) -> Result<Result<Box<dyn IterOps>, Box<dyn VecOps>>, ()> {
+            match catch(move || self.0.owned_iter()) {
+                Ok(Ok(it)) => Ok(Ok(Box::new(I::<_, $d>(it)))),
+                Ok(Err(v)) => Ok(Err(Box::new(L::<_, $d>(v)))),
+                Err(_) => Err(()),
+            }
+        }
+    };
+}
+
+macro_rules! iter_next_impl {
+    ($d:literal) => {
+        fn next(self: Box<Self>) -> Result<Box<dyn IterOps>, Box<dyn VecOps>> {
+            match self.0.next() {
+                Ok(it) => Ok(Box::new(I::<_, $d>(it))),
+                Err(v) => Err(Box::new(L::<_, $d>(v))),
+            }
+        }
+
+        fn inner(self: Box<Self>) -> Box<dyn VecOps> {
+            Box::new(L::<_, $d>(self.0.into_inner()))
+        }
+    };
+}
+
+macro_rules! slice_impl {
+    ($d:literal) => {
+        fn slice(self: Box<Self>, b: usize, by_cap: bool) -> Result<Result<Box<dyn VecOps>, ()>, Box<dyn VecOps>> {
+            let r = catch(move || if by_cap { self.0.slice_mut(b) } else { self.0.slice(b) });
+            Ok(match r {
+                Ok(s) => Ok(Box::new(L::<_, $d>(s)) as Box<dyn VecOps>),
+                Err(_) => Err(()),
+            })
+        }
+    };
+}
+
+impl<V: Nest2> VecOps for L<V, 0> {
+    vec_ops_common!();
+
+    slice_impl!(1);
+
+    owned_iter_impl!(0);
+
+    fn peel(self: Box<Self>) -> Box<dyn VecOps> {
+        self
+    }
+
+    fn depth(&self) -> usize {
+        0
+    }
+}
+
+/// containers for which a second `VectoredSlice` layer is instantiated (keeps the build small)
+pub trait Nest2: IoVectoredBufMut + Sized {
+    fn nest(s: VectoredSlice<VectoredSlice<Self>>) -> Option<Box<dyn VecOps>> {
+        let _ = s;
+        None
+    }
+    const NEST: bool = false;
+}
+
+macro_rules! nest_yes {
+    ($($t:ty),*) => {$(
+        impl Nest2 for $t {
+            fn nest(s: VectoredSlice<VectoredSlice<Self>>) -> Option<Box<dyn VecOps>> {
+                Some(Box::new(L::<_, 2>(s)))
+            }
+            const NEST: bool = true;
+        }
+    )*};
+}
+macro_rules! nest_no {
+    ($($t:ty),*) => {$( impl Nest2 for $t {} )*};
+}
+nest_yes!(Vec<BV>, (BV,), (BV, (BV,)), (BV, (BV, (BV,))));
+nest_no!(SmallVec<[BV; 2]>, ArrayVec<BV, 4>, [BV; 0], [BV; 2], [BV; 3], (), (BV, ()), (BV, (BV, ())));
+
+impl<W: Nest2> VecOps for L<VectoredSlice<W>, 1> {
+    vec_ops_common!();
+
+    fn slice(self: Box<Self>, b: usize, by_cap: bool) -> Result<Result<Box<dyn VecOps>, ()>, Box<dyn VecOps>> {
+        if !W::NEST {
+            return Err(self);
+        }
+        let r = catch(move || if by_cap { self.0.slice_mut(b) } else { self.0.slice(b) });
+        Ok(match r {
+            Ok(s) => Ok(W::nest(s).unwrap()),
+            Err(_) => Err(()),
+        })
+    }
+
+    owned_iter_impl!(1);
+
+    fn peel(self: Box<Self>) -> Box<dyn VecOps> {
+        Box::new(L::<_, 0>(self.0.into_inner()))
+    }
+
+    fn depth(&self) -> usize {
+        1
+    }
+}
+
+impl<W: Nest2> VecOps for L<VectoredSlice<VectoredSlice<W>>, 2> {
+    vec_ops_common!();
+
+    owned_iter_impl!(2);
+
+    fn slice(self: Box<Self>, _b: usize, _by_cap: bool) -> Result<Result<Box<dyn VecOps>, ()>, Box<dyn VecOps>> {
+        Err(self)
+    }
+
+    fn peel(self: Box<Self>) -> Box<dyn VecOps> {
+        Box::new(L::<_, 1>(self.0.into_inner()))
+    }
+
+    fn depth(&self) -> usize {
+        2
+    }
+}
+
+impl<V: Nest2> IterOps for I<V, 0> {
+    iter_ops_common!();
+
+    iter_next_impl!(0);
+}
+
+impl<W: Nest2> IterOps for I<VectoredSlice<W>, 1> {
+    iter_ops_common!();
+
+    iter_next_impl!(1);
+}
+
+impl<W: Nest2> IterOps for I<VectoredSlice<VectoredSlice<W>>, 2> {
+    iter_ops_common!();
+
+    iter_next_impl!(2);
+}
+
+// ---------------------------------------------------------------------------------------------
+// construction
+// ---------------------------------------------------------------------------------------------
+
+pub struct Member {
+    obj: *mut dyn DynView,
+    ri: RootInfo,
+}
+
+fn parse_member(s: &str) -> Option<Result<(BV, RootInfo), ()>> {
+    let p: Vec<&str> = s.split(':').collect();
+    if p.len() != 3 && p.len() != 4 {
+        return None;
+    }
+    let len = p[1].parse::<usize>().ok()?;
+    let mem = unhex(p[2]);
+    let mut root = mk_root(p[0], len, &mem)?;
+    let ri = RootInfo::of(&mut root);
+    if p.len() == 3 {
+        return Some(Ok((root, ri)));
+    }
+    let view = p[3];
+    if view == "u" {
+        return Some(catch(move || Box::new(root.uninit()) as BV).map(|v| (v, ri)).map_err(|_| ()));
+    }
+    let rest = view.strip_prefix('s')?;
+    let (b, e) = rest.split_once('.')?;
+    let b = b.parse::<usize>().ok()?;
+    let e = if e == "-" { None } else { Some(e.parse::<usize>().ok()?) };
+    let range = (Bound::Included(b), e.map(Bound::Excluded).unwrap_or(Bound::Unbounded));
+    Some(catch(move || Box::new(root.slice(range)) as BV).map(|v| (v, ri)).map_err(|_| ()))
+}
+
+fn build(kind: &str, ms: Vec<BV>) -> Option<Box<dyn VecOps>> {
+    let n = ms.len();
+    let mut it = ms.into_iter();
+    let mut nx = move || it.next().unwrap();
+    Some(match (kind, n) {
+        ("vec", 0..=4) => Box::new(L::<_, 0>((0..n).map(|_| nx()).collect::<Vec<BV>>())),
+        ("smallvec", 0..=4) => Box::new(L::<_, 0>((0..n).map(|_| nx()).collect::<SmallVec<[BV; 2]>>())),
+        ("arrayvec", 0..=4) => Box::new(L::<_, 0>((0..n).map(|_| nx()).collect::<ArrayVec<BV, 4>>())),
+        ("arr", 0) => Box::new(L::<_, 0>([] as [BV; 0])),
+        ("arr", 2) => Box::new(L::<_, 0>([nx(), nx()])),
+        ("arr", 3) => Box::new(L::<_, 0>([nx(), nx(), nx()])),
+        ("tuple1", 1) => Box::new(L::<_, 0>((nx(),))),
+        ("tuple1", 2) => Box::new(L::<_, 0>((nx(), (nx(),)))),
+        ("tuple1", 3) => Box::new(L::<_, 0>((nx(), (nx(), (nx(),))))),
+        ("tuple0", 0) => Box::new(L::<_, 0>(())),
+        ("tuple0", 1) => Box::new(L::<_, 0>((nx(), ()))),
+        ("tuple0", 2) => Box::new(L::<_, 0>((nx(), (nx(), ())))),
+        _ => return None,
+    })
+}
+
+// ---------------------------------------------------------------------------------------------
+// the machine
+// ---------------------------------------------------------------------------------------------
+
+enum VSt {
+    Dead,
+    Vec(Box<dyn VecOps>),
+    Iter(Box<dyn IterOps>, usize),
+}
+
+pub struct VMachine {
+    st: VSt,
+    members: Vec<Member>,
+    /// at some point of the program the members were not packed (full*, partial?, empty*): the vectored
+    /// calls, which mix initialised-byte positions with capacity positions, are then known to misrecord (V3)
+    ever_unpacked: bool,
+}
+
+#[derive(Clone, Debug, PartialEq)]
+struct RootsObs {
+    lens: Vec<usize>,
+    mems: Vec<Vec<u8>>,
+}
+
+#[derive(Clone, Debug)]
+struct VObs {
+    s: Result<Vec<(usize, usize, usize)>, ()>,
+    u: Result<Vec<(usize, usize, usize)>, ()>,
+    tl: Result<usize, ()>,
+    tc: Result<usize, ()>,
+    roots: RootsObs,
+}
+
+fn show_items(r: &Result<Vec<(usize, usize, usize)>, ()>) -> String {
+    match r {
+        Err(()) => "panic".into(),
+        Ok(v) if v.is_empty() => "-".into(),
+        Ok(v) => v.iter().map(|(j, o, l)| format!("{j}:{o}+{l}")).collect::<Vec<_>>().join(","),
+    }
+}
+
+fn show_nat(r: &Result<usize, ()>) -> String {
+    match r {
+        Ok(n) => n.to_string(),
+        Err(()) => "panic".into(),
+    }
+}
+
+impl VMachine {
+    pub fn new() -> Self {
+        VMachine { st: VSt::Dead, members: vec![], ever_unpacked: false }
+    }
+
+    fn roots(&self) -> RootsObs {
+        RootsObs {
+            lens: self.members.iter().map(|m| unsafe { (*m.obj).root_len() }).collect(),
+            mems: self.members.iter().map(|m| m.ri.mem()).collect(),
+        }
+    }
+
+    fn show_roots(&self) -> String {
+        let r = self.roots();
+        if r.lens.is_empty() {
+            return "-".into();
+        }
+        r.lens.iter().zip(&r.mems).map(|(l, m)| format!("{l}:{}", hex(m))).collect::<Vec<_>>().join("|")
+    }
+
+    /// per member of the base container: (initialised length, capacity) of the member *view*
+    fn base_shape(&self) -> Vec<Option<(usize, usize)>> {
+        self.members
+            .iter()
+            .map(|m| {
+                let li = catch(|| unsafe { (*m.obj).as_init().len() }).ok()?;
+                let ci = catch(|| unsafe { (*m.obj).as_uninit().len() }).ok()?;
+                Some((li, ci))
+            })
+            .collect()
+    }
+
+    /// attach member indices (the last `count` members are the ones yielded) and make offsets root-relative
+    fn rel(&self, items: Items) -> Result<Vec<(usize, usize, usize)>, ()> {
+        let items = items?;
+        let n = self.members.len();
+        if items.len() > n {
+            return Err(());
+        }
+        let first = n - items.len();
+        Ok(items.iter().enumerate().map(|(t, (p, l))| (first + t, self.members[first + t].ri.off(*p as *const u8), *l)).collect())
+    }
+
+    fn vobs(&mut self) -> VObs {
+        let VSt::Vec(v) = &mut self.st else { unreachable!() };
+        let (s, u, tl, tc) = (v.items_s(), v.items_u(), v.total_len(), v.total_cap());
+        VObs { s: self.rel(s), u: self.rel(u), tl, tc, roots: self.roots() }
+    }
+
+    fn monitor_bounds(&self, ex: &mut Exec, o: &VObs, ctx: &str) {
+        for (j, (l, m)) in o.roots.lens.iter().zip(&o.roots.mems).enumerate() {
+            if *l > m.len() {
+                ex.fail("C10:bounds", format!("{ctx}: member {j} root len {l} > cap {}", m.len()));
+            }
+        }
+        if let Ok(s) = &o.s {
+            for (j, off, l) in s {
+                if off + l > o.roots.lens[*j] {
+                    ex.fail("C10:bounds", format!("{ctx}: iter_slice item {j}:{off}+{l} outside initialised root 0..{}", o.roots.lens[*j]));
+                }
+            }
+        }
+        if let Ok(u) = &o.u {
+            for (j, off, l) in u {
+                if off + l > o.roots.mems[*j].len() {
+                    ex.fail("C10:bounds", format!("{ctx}: iter_uninit_slice item {j}:{off}+{l} outside allocation 0..{}", o.roots.mems[*j].len()));
+                }
+            }
+        }
+    }
+
+    fn vline(&mut self, ex: &mut Exec, ctx: &str) -> String {
+        let o = self.vobs();
+        self.monitor_bounds(ex, &o, ctx);
+        format!("s={} u={} t={}/{} r={}", show_items(&o.s), show_items(&o.u), show_nat(&o.tl), show_nat(&o.tc), self.show_roots())
+    }
+
+    fn iobs(&mut self) -> (Result<(usize, usize, usize), ()>, Result<(usize, usize, usize), ()>) {
+        let VSt::Iter(it, idx) = &mut self.st else { unreachable!() };
+        let idx = *idx;
+        let i = it.init();
+        let u = it.uninit();
+        let ri = &self.members[idx].ri;
+        (i.map(|(p, l)| (idx, ri.off(p as *const u8), l)), u.map(|(p, l)| (idx, ri.off(p as *const u8), l)))
+    }
+
+    fn iline(&mut self, ex: &mut Exec, ctx: &str) -> String {
+        let (i, u) = self.iobs();
+        let roots = self.roots();
+        if let Ok((j, off, l)) = i {
+            if off + l > roots.lens[j] {
+                ex.fail("C10:bounds", format!("{ctx}: iterator as_init {j}:{off}+{l} outside initialised root 0..{}", roots.lens[j]));
+            }
+        }
+        if let Ok((j, off, l)) = u {
+            if off + l > roots.mems[j].len() {
+                ex.fail("C10:bounds", format!("{ctx}: iterator as_uninit {j}:{off}+{l} outside allocation"));
+            }
+        }
+        let sh = |r: Result<(usize, usize, usize), ()>| match r {
+            Ok((j, o, l)) => format!("{j}:{o}+{l}"),
+            Err(()) => "panic".into(),
+        };
+        format!("i={} u={} r={}", sh(i), sh(u), self.show_roots())
+    }
+
+    pub fn apply(&mut self, line: &str, ex: &mut Exec) -> String {
+        let w: Vec<&str> = line.split_whitespace().collect();
+        if w.len() == 3 && w[0] == "vroot" {
+            self.st = VSt::Dead;
+            self.members.clear();
+            self.ever_unpacked = false;
+            let parts: Vec<&str> = if w[2] == "-" { vec![] } else { w[2].split(';').collect() };
+            let mut ms: Vec<BV> = vec![];
+            let mut ris: Vec<RootInfo> = vec![];
+            let mut panicked = false;
+            for p in &parts {
+                match parse_member(p) {
+                    None => return "bad-op".into(),
+                    Some(Ok((m, ri))) => {
+                        ms.push(m);
+                        ris.push(ri);
+                    }
+                    Some(Err(())) => panicked = true,
+                }
+            }
+            let ok_kind = match w[1] {
+                "vec" | "smallvec" | "arrayvec" => parts.len() <= 4,
+                "arr" => matches!(parts.len(), 0 | 2 | 3),
+                "tuple1" => (1..=3).contains(&parts.len()),
+                "tuple0" => parts.len() <= 2,
+                _ => false,
+            };
+            if !ok_kind {
+                return "bad-op".into();
+            }
+            if panicked {
+                return "panic".into();
+            }
+            for (m, ri) in ms.iter_mut().zip(ris) {
+                let obj: *mut dyn DynView = &mut **m;
+                self.members.push(Member { obj, ri });
+            }
+            ex.tag(format!("vroot:{}", w[1]));
+            ex.tag(format!("members:{}", ms.len()));
+            let Some(v) = build(w[1], ms) else { return "bad-op".into() };
+            self.st = VSt::Vec(v);
+            return self.vline(ex, line);
+        }
+        if !matches!(self.st, VSt::Dead) && !is_packed(&self.base_shape()) {
+            if !self.ever_unpacked {
+                ex.tag("unpacked-members");
+            }
+            self.ever_unpacked = true;
+        }
+        match &self.st {
+            VSt::Dead => "dead".into(),
+            VSt::Vec(_) => self.apply_vec(&w, line, ex),
+            VSt::Iter(..) => self.apply_iter(&w, line, ex),
+        }
+    }
+
+    fn apply_vec(&mut self, w: &[&str], line: &str, ex: &mut Exec) -> String {
+        match w {
+            ["vfill", h] => {
+                let data = unhex(h);
+                let k = data.len();
+                let before = self.vobs();
+                let shape = self.base_shape();
+                let reused = self.members.iter().any(|m| unsafe { (*m.obj).reused_uninit() });
+                let VSt::Vec(v) = &mut self.st else { unreachable!() };
+                let Ok(tc) = before.tc else {
+                    self.st = VSt::Dead;
+                    return "panic".into();
+                };
+                if k > tc {
+                    ex.tag("vfill-contract");
+                    return "contract".into();
+                }
+                if v.write(&data).is_err() || v.advance_vec_to(k).is_err() {
+                    self.st = VSt::Dead;
+                    ex.tag("vfill-panic");
+                    return "panic".into();
+                }
+                ex.tag(if k == 0 { "vfill-0" } else { "vfill" });
+                // ---- vectored fill law (implementation-only oracle) ----
+                let after = self.roots();
+                let mut bad = vec![];
+                if let Ok(u) = &before.u {
+                    let mut expect = before.roots.mems.clone();
+                    let mut rest = &data[..];
+                    for (j, off, l) in u {
+                        if rest.is_empty() {
+                            break;
+                        }
+                        let n = (*l).min(rest.len());
+                        expect[*j][*off..*off + n].copy_from_slice(&rest[..n]);
+                        if after.lens[*j] < off + n {
+                            bad.push(format!("{n} bytes written to member {j} at {off}..{} but its root len is {}", off + n, after.lens[*j]));
+                        }
+                        rest = &rest[n..];
+                    }
+                    if expect != after.mems {
+                        bad.push("root memories differ from the expected splice".to_string());
+                    }
+                }
+                for (j, (a, b)) in after.lens.iter().zip(&before.roots.lens).enumerate() {
+                    if a < b {
+                        bad.push(format!("member {j} root len shrank {b} -> {a}"));
+                    }
+                }
+                if !bad.is_empty() {
+                    let packed = !self.ever_unpacked;
+                    let bounded = self.members.iter().zip(&shape).enumerate().any(|(j, (m, s))| {
+                        let _ = m;
+                        match (s, before.u.as_ref().ok().and_then(|u| u.iter().find(|x| x.0 == j))) {
+                            (Some(_), Some((_, off, l))) => before.roots.lens[j] > off + l,
+                            _ => false,
+                        }
+                    });
+                    let sig = if reused {
+                        "F6:uninit-second-fill"
+                    } else if !packed {
+                        "C10-V3:unpacked-members"
+                    } else if bounded {
+                        "C10-V2:bounded-member-truncated"
+                    } else {
+                        "C10:vfill-law"
+                    };
+                    ex.tag("vfill-law-broken");
+                    ex.fail(sig, format!("{line} on s={} u={} shape={:?}: {}", show_items(&before.s), show_items(&before.u), shape, bad.join("; ")));
+                }
+                self.vline(ex, line)
+            }
+            ["vsetlen", n] | ["vadvto", n] => {
+                let Ok(n) = n.parse::<usize>() else { return "bad-op".into() };
+                let VSt::Vec(v) = &mut self.st else { unreachable!() };
+                let Ok(tc) = v.total_cap() else {
+                    self.st = VSt::Dead;
+                    return "panic".into();
+                };
+                if n > tc {
+                    return "contract".into();
+                }
+                let r = if w[0] == "vsetlen" { v.set_len(n) } else { v.advance_vec_to(n) };
+                if r.is_err() {
+                    self.st = VSt::Dead;
+                    ex.tag("vsetlen-panic");
+                    return "panic".into();
+                }
+                ex.tag(w[0].to_string());
+                self.vline(ex, line)
+            }
+            ["vslice", b] | ["vslicemut", b] => {
+                let Ok(b) = b.parse::<usize>() else { return "bad-op".into() };
+                let VSt::Vec(v) = std::mem::replace(&mut self.st, VSt::Dead) else { unreachable!() };
+                match v.slice(b, w[0] == "vslicemut") {
+                    Err(v) => {
+                        self.st = VSt::Vec(v);
+                        "bad-op".into()
+                    }
+                    Ok(Err(())) => "panic".into(),
+                    Ok(Ok(s)) => {
+                        ex.tag(w[0].to_string());
+                        self.st = VSt::Vec(s);
+                        self.vline(ex, line)
+                    }
+                }
+            }
+            ["vpeel"] => {
+                let VSt::Vec(v) = std::mem::replace(&mut self.st, VSt::Dead) else { unreachable!() };
+                self.st = VSt::Vec(v.peel());
+                self.vline(ex, line)
+            }
+            ["viter"] => {
+                let VSt::Vec(v) = std::mem::replace(&mut self.st, VSt::Dead) else { unreachable!() };
+                let n = self.members.len();
+                let count = v.items_s().map(|i| i.len()).unwrap_or(0);
+                match v.owned_iter() {
+                    Err(()) => "panic".into(),
+                    Ok(Err(v)) => {
+                        self.st = VSt::Vec(v);
+                        format!("empty {}", self.vline(ex, line))
+                    }
+                    Ok(Ok(it)) => {
+                        ex.tag("viter");
+                        self.st = VSt::Iter(it, n - count);
+                        self.iline(ex, line)
+                    }
+                }
+            }
+            ["end"] => {
+                let r = format!("roots {}", self.show_roots());
+                self.st = VSt::Dead;
+                r
+            }
+            _ => "bad-op".into(),
+        }
+    }
+
+    fn apply_iter(&mut self, w: &[&str], line: &str, ex: &mut Exec) -> String {
+        match w {
+            ["ifill", h] => {
+                let data = unhex(h);
+                let k = data.len();
+                let (bi, bu) = self.iobs();
+                let before = self.roots();
+                let shape = self.base_shape();
+                let ever_unpacked = self.ever_unpacked;
+                let VSt::Iter(it, idx) = &mut self.st else { unreachable!() };
+                let idx = *idx;
+                let Ok((j, off, c)) = bu else {
+                    self.st = VSt::Dead;
+                    return "panic".into();
+                };
+                if k > c {
+                    return "contract".into();
+                }
+                if bi.is_err() {
+                    self.st = VSt::Dead;
+                    return "panic".into();
+                }
+                it.write(&data);
+                if it.advance_to(k).is_err() {
+                    self.st = VSt::Dead;
+                    return "panic".into();
+                }
+                ex.tag(if k == 0 { "ifill-0" } else { "ifill" });
+                // ---- iterator fill law: only member j changes, exactly the written bytes, and they are initialised ----
+                let after = self.roots();
+                let mut expect = before.clone();
+                expect.mems[j][off..off + k].copy_from_slice(&data);
+                let mut bad = vec![];
+                if after.mems != expect.mems {
+                    bad.push("root memories differ from the expected splice".to_string());
+                }
+                if k > 0 && after.lens[j] < off + k {
+                    bad.push(format!("{k} bytes written to member {j} at {off}.. but its root len is {}", after.lens[j]));
+                }
+                for (m, (a, b)) in after.lens.iter().zip(&before.lens).enumerate() {
+                    if a < b {
+                        bad.push(format!("member {m} root len shrank {b} -> {a}"));
+                    }
+                    if m != j && a != b {
+                        bad.push(format!("member {m} (not the current one) changed its len {b} -> {a}"));
+                    }
+                }
+                if !bad.is_empty() {
+                    // VectoredBufIter::set_len hands `total_filled + filled` to the container, which distributes it
+                    // by capacity from member 0: wrong as soon as earlier members have capacity that was not
+                    // recorded through this iterator, or the position is filled a second time
+                    let earlier_cap: usize = shape[..idx].iter().map(|s| s.map(|x| x.1).unwrap_or(1)).sum();
+                    let refilled = matches!((bi, bu), (Ok((_, oi, _)), Ok((_, ou, _))) if oi != ou);
+                    let sig = if earlier_cap > 0 || refilled {
+                        "C10-V1:viter-accounting"
+                    } else if ever_unpacked {
+                        "C10-V3:unpacked-members"
+                    } else {
+                        "C10:viter-law"
+                    };
+                    ex.tag("ifill-law-broken");
+                    ex.fail(sig, format!("{line} at member {idx}, shape={shape:?}: {}", bad.join("; ")));
+                }
+                self.iline(ex, line)
+            }
+            ["isetlen", n] | ["iadvto", n] => {
+                let Ok(n) = n.parse::<usize>() else { return "bad-op".into() };
+                let VSt::Iter(it, _) = &mut self.st else { unreachable!() };
+                let Ok((_, c)) = it.uninit() else {
+                    self.st = VSt::Dead;
+                    return "panic".into();
+                };
+                if n > c {
+                    return "contract".into();
+                }
+                let r = if w[0] == "isetlen" { it.set_len(n) } else { it.advance_to(n) };
+                if r.is_err() {
+                    self.st = VSt::Dead;
+                    return "panic".into();
+                }
+                ex.tag(w[0].to_string());
+                self.iline(ex, line)
+            }
+            ["inext"] => {
+                let VSt::Iter(it, idx) = std::mem::replace(&mut self.st, VSt::Dead) else { unreachable!() };
+                match it.next() {
+                    Ok(it) => {
+                        ex.tag("inext");
+                        self.st = VSt::Iter(it, idx + 1);
+                        self.iline(ex, line)
+                    }
+                    Err(v) => {
+                        ex.tag("iter-done");
+                        self.st = VSt::Vec(v);
+                        format!("done {}", self.vline(ex, line))
+                    }
+                }
+            }
+            ["iinner"] => {
+                let VSt::Iter(it, _) = std::mem::replace(&mut self.st, VSt::Dead) else { unreachable!() };
+                self.st = VSt::Vec(it.inner());
+                self.vline(ex, line)
+            }
+            _ => "bad-op".into(),
+        }
+    }
+
+    pub fn alive(&self) -> bool {
+        !matches!(self.st, VSt::Dead)
+    }
+
+    pub fn in_iter(&self) -> bool {
+        matches!(self.st, VSt::Iter(..))
+    }
+
+    pub fn depth(&self) -> usize {
+        match &self.st {
+            VSt::Vec(v) => v.depth(),
+            _ => 0,
+        }
+    }
+
+    pub fn totals(&mut self) -> (usize, usize) {
+        match &mut self.st {
+            VSt::Vec(v) => (v.total_len().unwrap_or(0), v.total_cap().unwrap_or(0)),
+            VSt::Iter(it, _) => (it.init().map(|x| x.1).unwrap_or(0), it.uninit().map(|x| x.1).unwrap_or(0)),
+            VSt::Dead => (0, 0),
+        }
+    }
+}
+
+/// packed: full members, then at most one partial member, then empty members
+fn is_packed(shape: &[Option<(usize, usize)>]) -> bool {
+    let mut seen_partial = false;
+    for s in shape {
+        let Some((li, ci)) = s else { return false };
+        if seen_partial {
+            if *li != 0 {
+                return false;
+            }
+        } else if li < ci {
+            seen_partial = true;
+        }
+    }
+    true
+}
+
+// ---------------------------------------------------------------------------------------------
+// exec / generate
+// ---------------------------------------------------------------------------------------------
 
 pub fn exec(case: &Case, ex: &mut Exec) {
-    for _ in &case.lines {
-        ex.out.push("bad-op".into());
+    let mut m = VMachine::new();
+    let mut recorded = false;
+    let mut viewed = false;
+    for l in &case.lines {
+        let o = m.apply(l, ex);
+        if (l.starts_with("vfill ") || l.starts_with("ifill ")) && (o.starts_with("s=") || o.starts_with("i=")) {
+            recorded = true;
+        }
+        if m.depth() > 0 || m.in_iter() {
+            viewed = true;
+        }
+        if o == "panic" {
+            ex.nontrivial = true;
+        }
+        ex.out.push(o);
+    }
+    if recorded || viewed {
+        ex.nontrivial = true;
+    }
+}
+
+const MKINDS: [&str; 6] = ["vec", "bytesmut", "arr", "boxed", "arrayvec", "smallvec"];
+
+fn gen_member(rng: &mut Rng, packed_role: Option<u8>) -> String {
+    let kind = *rng.pick(&MKINDS);
+    let cap = match kind {
+        "smallvec" => rng.range(8, 10) as usize,
+        _ => rng.range(0, 6) as usize,
+    };
+    let len = match (kind, packed_role) {
+        ("arr" | "boxed", _) => cap,
+        (_, Some(0)) => cap,
+        (_, Some(2)) => 0,
+        _ => rng.range(0, cap as u64) as usize,
+    };
+    let base = rng.below(200) as u8;
+    let mem: Vec<u8> = (0..cap).map(|i| base.wrapping_add(i as u8)).collect();
+    let mut s = format!("{kind}:{len}:{}", hex(&mem));
+    match rng.below(12) {
+        0 => s.push_str(":u"),
+        1 => {
+            let b = rng.range(0, len as u64) as usize;
+            s.push_str(&format!(":s{b}.-"));
+        }
+        2 => {
+            let b = rng.range(0, len as u64) as usize;
+            let e = rng.range(b as u64, cap as u64 + 1) as usize;
+            s.push_str(&format!(":s{b}.{e}"));
+        }
+        _ => {}
+    }
+    s
+}
+
+fn fresh(rng: &mut Rng, k: usize) -> Vec<u8> {
+    (0..k).map(|_| 0xE0 + rng.below(32) as u8).collect()
+}
+
+fn gen_vprogram(rng: &mut Rng) -> Vec<String> {
+    let vk = *rng.pick(&["vec", "vec", "arr", "arrayvec", "smallvec", "tuple1", "tuple0"]);
+    let n = match vk {
+        "tuple1" => rng.range(1, 3),
+        "tuple0" => rng.range(0, 2),
+        "arr" => *rng.pick(&[0u64, 2, 2, 3, 3]),
+        _ => rng.range(0, 4),
+    } as usize;
+    // mostly packed shapes (full*, partial?, empty*), sometimes arbitrary
+    let packed = rng.chance(3, 4);
+    let split = rng.range(0, n as u64) as usize;
+    let ms: Vec<String> = (0..n)
+        .map(|i| {
+            let role = if !packed { None } else if i < split { Some(0) } else if i == split { Some(1) } else { Some(2) };
+            gen_member(rng, role)
+        })
+        .collect();
+    let mut lines = vec![format!("vroot {vk} {}", if ms.is_empty() { "-".to_string() } else { ms.join(";") })];
+    let mut m = VMachine::new();
+    let mut scratch = Exec::new();
+    m.apply(&lines[0], &mut scratch);
+    let n_ops = rng.range(1, 7);
+    for _ in 0..n_ops {
+        if !m.alive() {
+            break;
+        }
+        let (tl, tc) = m.totals();
+        let hostile = rng.chance(1, 15);
+        let l = if m.in_iter() {
+            match rng.below(10) {
+                0..=4 => {
+                    // mostly fill the member completely (the usage the iterator supports), sometimes partially
+                    let k = if rng.chance(2, 3) { tc } else { rng.range(0, tc as u64) as usize } + hostile as usize;
+                    format!("ifill {}", hex(&fresh(rng, k)))
+                }
+                5 => format!("isetlen {}", rng.range(0, tc as u64)),
+                6 => format!("iadvto {}", rng.range(0, tc as u64)),
+                7..=8 => "inext".to_string(),
+                _ => "iinner".to_string(),
+            }
+        } else {
+            match rng.below(20) {
+                0..=7 => {
+                    let k = if hostile { tc + 1 } else if rng.chance(1, 5) { tc } else { rng.range(0, tc as u64) as usize };
+                    format!("vfill {}", hex(&fresh(rng, k)))
+                }
+                8 => format!("vsetlen {}", rng.range(0, tc as u64 + hostile as u64)),
+                9 => format!("vadvto {}", rng.range(0, tc as u64 + hostile as u64)),
+                10..=12 if m.depth() < 2 => {
+                    let hi = if rng.chance(4, 5) { tl } else { tc };
+                    format!("vslicemut {}", rng.range(0, hi as u64 + hostile as u64))
+                }
+                13..=14 if m.depth() < 2 => format!("vslice {}", rng.range(0, tl as u64 + hostile as u64)),
+                15 => "vpeel".to_string(),
+                16..=18 => "viter".to_string(),
+                _ => {
+                    let k = rng.range(0, tc as u64) as usize;
+                    format!("vfill {}", hex(&fresh(rng, k)))
+                }
+            }
+        };
+        m.apply(&l, &mut scratch);
+        lines.push(l);
+    }
+    if m.in_iter() {
+        let l = "iinner".to_string();
+        m.apply(&l, &mut scratch);
+        lines.push(l);
+    }
+    lines.push("end".into());
+    lines
+}
+
+pub fn generate(tier: &str, rng: &mut Rng, cases: &mut Vec<Case>) {
+    let n = if tier == "thorough" { 40_000 } else { 2_000 };
+    for i in 0..n {
+        cases.push(Case { name: format!("vprog-{i}"), lines: gen_vprogram(rng) });
+    }
+    // exhaustive: two/three small Vec members (all shapes), one vectored fill of every length, list and tuple containers
+    let max = if tier == "thorough" { 3 } else { 2 };
+    let mut id = 0;
+    for vk in ["vec", "tuple1", "tuple0"] {
+        for c0 in 0..=max {
+            for l0 in 0..=c0 {
+                for c1 in 0..=max {
+                    for l1 in 0..=c1 {
+                        let m0: Vec<u8> = (0..c0).map(|i| 0x10 + i as u8).collect();
+                        let m1: Vec<u8> = (0..c1).map(|i| 0x20 + i as u8).collect();
+                        for k in 0..=(c0 + c1) {
+                            for b in 0..=(if k == 0 { c0 + c1 } else { 0 }) {
+                                let mut lines = vec![format!("vroot {vk} vec:{l0}:{};vec:{l1}:{}", hex(&m0), hex(&m1))];
+                                if b > 0 {
+                                    lines.push(format!("vslicemut {b}"));
+                                    lines.push(format!("vfill {}", hex(&vec![0xEE; (c0 + c1 - b).min(2)])));
+                                } else {
+                                    lines.push(format!("vfill {}", hex(&vec![0xEE; k])));
+                                }
+                                lines.push("end".into());
+                                cases.push(Case { name: format!("vex-{id}"), lines });
+                                id += 1;
+                            }
+                        }
+                    }
+                }
+            }
+        }
     }
 }
